@@ -3,6 +3,7 @@ package main
 // Address family ops (C01, C02, C03, address part of C08).
 
 import (
+	"bytes"
 	"crypto/sha256"
 	"fmt"
 	"math/big"
@@ -159,13 +160,15 @@ func observe(a Event, ad bchutil.Address, err error, p bool, msg string, env []i
 
 func opNewAddr(_ *HState, a Event) Event {
 	net := nets[gInt(a, "net")-1]
-	data := gBytes(a, "data")
+	orig := gBytes(a, "data")
+	// the constructor sees the argument inside a larger buffer (spare capacity poisoned); afterwards the bytes and
+	// the spare capacity must be what they were (constructors are pure in their arguments)
+	data, backing := sliceWithCap(orig, 40)
+	before := append([]byte{}, backing...)
 	ctor := gName(a, "ctor")
 	var ad bchutil.Address
 	var err error
 	var env []interface{}
-	fix := func(x interface{ String() string }, isNil bool) {}
-	_ = fix
 	p, msg := guard(func() {
 		switch ctor {
 		case "PubKeyHash":
@@ -244,6 +247,8 @@ func opNewAddr(_ *HState, a Event) Event {
 			fatal("unknown ctor %q", ctor)
 		}
 	})
+	argmod := !bytes.Equal(before, backing)
+	data = orig // env facts and observations are about the argument as it was passed
 	// planner for env facts (the specification decides which it uses)
 	switch ctor {
 	case "ScriptHash", "LegacyScriptHash":
@@ -262,7 +267,9 @@ func opNewAddr(_ *HState, a Event) Event {
 		h := ripemd(sha256b(data))
 		env = append(env, envSha256d(append([]byte{net.LegacyPubKeyHashAddrID}, h...)))
 	}
-	return observe(a, ad, err, p, msg, env)
+	e := observe(a, ad, err, p, msg, env)
+	e["argmod"] = argmod
+	return e
 }
 
 func opDecode(_ *HState, a Event) Event {
